@@ -170,8 +170,11 @@ def run(prog, ctx):
             cnt = COUNTERS[n]
             resets = [st for (st, r) in stored.get(cnt, []) if r is not None and r.const_value() == 0 and st.k != "CallExpr"]
             incs = [st for lhs, rhs, st, kind in query.stores(f) if kind == "++" and cfg.block_of(st) in region and cnt in render(lhs)]
+            anew = [st for (st, r) in stored.get(cnt, []) if r is not None and st.k == "BinaryOperator" and st.j.get("op") == "=" and cnt not in render(r)]
             if resets and all(cfg.node_dominates(resets[0], x) for x in incs):
                 ctx.ok("O4", "%s restarts its counter" % n, resets[0].where, "%s = 0 before the element loop" % cnt)
+            elif not incs and anew:
+                ctx.ok("O4", "%s restarts its counter" % n, anew[0].where, "`%s`: the count of the new list is assigned, not added to" % render(anew[0])[:60])
             else:
                 ctx.fail("O4", "%s restarts its counter" % n, c.where,
                          "a second %s= item keeps counting from the first list: the new array's leading slots are never filled and "
@@ -421,21 +424,85 @@ def o10(prog, ctx):
                                what="lookup of the entry")
 
 
+def _list_builders(prog, f, field):
+    """[(function, name of the array as that function writes it)]: the object's list itself, a local that is stored into it afterwards,
+    or - one call level down - the local a helper stores through the out-parameter that was handed the list's address"""
+    out = [(f, None)]
+    published = set()
+    for lhs, rhs, st, kind in query.stores(f):
+        if kind == "=" and render(lhs).endswith("->" + field) and rhs is not None and rhs.strip().k == "DeclRefExpr" and rhs.strip().j.get("dk") == "local":
+            published.add(rhs.strip().j["name"])
+            out.append((f, rhs.strip().j["name"]))
+    for c in f.calls():
+        cn = c.j.get("callee")
+        if not cn or cn == f.name or not prog.has_fn(cn) or prog.fn(cn).body is None:
+            continue
+        g = prog.fn(cn)
+        for ai, a in enumerate(c.call_args()):
+            a0 = a.strip()
+            if a0.k == "UnaryOperator" and a0.j.get("op") == "&" and (render(a0.children[0]).endswith("->" + field) or render(a0.children[0]) in published) \
+                    and ai < len(g.params):
+                pn = g.params[ai]["name"]
+                for lhs, rhs, st, kind in query.stores(g):
+                    if kind == "=" and render(lhs) == "*" + pn and rhs is not None and rhs.strip().k == "DeclRefExpr" and rhs.strip().j.get("dk") == "local":
+                        out.append((g, rhs.strip().j["name"]))
+    return out
+
+
+def _counted_split(g, st, lp, base):
+    """count the separators, allocate once, fill slot i in round i: `members = 1; for (p ..) if (*p == sep) members++;
+    arr = calloc(members + 1, ..); for (i = 0; i < members; i++) arr[i] = strndup(..)`.  Text that says why it is (not) that form."""
+    from sa import loops as _loops
+    cfg = g.cfg
+    sh = _loops.index_shape(lp)
+    l0 = st.children[0].strip()
+    if not (sh.ok and sh.step > 0 and sh.cmp == "<" and sh.start == "0" and render(l0.children[1]) == sh.var):
+        return None
+    M = sh.bound
+    hb = cfg.loop_header(lp)
+    if hb is None or not cfg.every_round_passes(hb, cfg.block_of(st)):
+        return ("fail", "some rounds of the filling loop store no member")
+    defs = [(r2, s2) for l2, r2, s2 in g.assignments() if (l2["name"] if isinstance(l2, dict) else render(l2)) == M and r2 is not None]
+    incs = [s2 for l2, r2, s2, k2 in query.stores(g) if k2 == "++" and s2.j.get("op") == "++" and render(l2) == M]
+    if not (len(defs) == 1 and defs[0][0].const_value() == 1 and incs):
+        return None
+    for inc in incs:
+        # the increment stands behind a comparison of a character with the separator, or in a loop that steps from one separator to the next
+        req = cfg.required_literals(cfg.block_of(inc))
+        by_char = any(l.kind == "eq" and l.pol and (render(l.lhs).startswith("*") or "[" in render(l.lhs) or render(l.rhs).startswith("*")) for l in req)
+        ilp = next((a for a in inc.ancestors() if a.k in ("ForStmt", "WhileStmt")), None)
+        by_search = ilp is not None and any(x.k == "CallExpr" and x.j.get("callee") in ("strchr", "memchr") for x in ilp.walk())
+        if not (by_char or by_search):
+            return None
+    alloc = [r2 for l2, r2, s2 in g.assignments() if (l2["name"] if isinstance(l2, dict) else (l2.strip().j.get("name") if l2.strip().k == "DeclRefExpr" else render(l2))) == base and r2 is not None
+             and r2.strip().k == "CallExpr" and r2.strip().j.get("callee") in ("calloc", "malloc")]
+    if not alloc or not any(("%s + 1" % M) in render(a) for a in alloc):
+        return None
+    return ("ok", "members counted as separators + 1 (%s), array of %s + 1 slots, slot i filled in every round of %s" % (M, M, sh.describe()))
+
+
 def o11_list_members(prog, ctx, rule="O11"):
     """O11: the members of PARSING_DIRS= / CONFIG_DIRS= are what stands between the colons, empty members included: an empty directory is
     what econf_readDirs*() makes of a NULL argument and an empty postfix names <dir>/<name>/ itself.  strsep() keeps them, strtok() /
-    strtok_r() skip them (and runs of separators)."""
+    strtok_r() skip them (and runs of separators); a hand-written split must count one member more than there are separators."""
     from rules.C01 import enclosing_loop as _el
     f = prog.fn("econf_newKeyFile_with_options")
     ctx.touch(f)
     n = 0
     for field in ("parse_dirs", "conf_dirs"):
-        sts = [st for lhs, rhs, st, kind in query.stores(f) if lhs.strip().k == "ArraySubscriptExpr" and render(lhs.strip().children[0]).endswith("->" + field)
-               and rhs is not None and not rhs.is_null_const()]
-        if not sts:
+        sites = []
+        for g, base in _list_builders(prog, f, field):
+            for lhs, rhs, st, kind in query.stores(g):
+                l0 = lhs.strip()
+                if l0.k == "ArraySubscriptExpr" and rhs is not None and not rhs.is_null_const() and (
+                        (base is None and render(l0.children[0]).endswith("->" + field)) or (base is not None and (
+                            render(l0.children[0]) == base or (l0.children[0].strip().k == "DeclRefExpr" and l0.children[0].strip().j.get("name") == base)))):
+                    sites.append((g, base, st))
+        if not sites:
             ctx.inconclusive(rule, "members of the %s list" % field, f.where, "no store of a member found")
             continue
-        for st in sts:
+        for g, base, st in sites:
+            ctx.touch(g)
             lp = _el(st)
             toks = set()
             if lp is not None:
@@ -446,7 +513,7 @@ def o11_list_members(prog, ctx, rule="O11"):
             n += 1
             every_round = True
             if lp is not None:
-                cfg = f.cfg
+                cfg = g.cfg
                 hb = cfg.loop_header(lp)
                 if hb is not None:
                     # a way round the loop that does not pass the store (NOMEM exits leave the loop, they do not go round)
@@ -464,7 +531,11 @@ def o11_list_members(prog, ctx, rule="O11"):
                          "and the read falls back to the default layers; an empty postfix (the directory itself) cannot be named" % (
                              sorted(toks & {"strtok", "strtok_r"})[0], field.upper()), key="list-tokenizer:%s" % field)
             else:
-                ctx.inconclusive(rule, "members of the %s list" % field, st.where, "the list is split in a form not understood")
+                counted = _counted_split(g, st, lp, base) if (lp is not None and base is not None) else None
+                if counted is not None and counted[0] == "ok":
+                    ctx.ok(rule, "members of the %s list" % field, st.where, counted[1])
+                else:
+                    ctx.inconclusive(rule, "members of the %s list" % field, st.where, "the list is split in a form not understood")
     ctx.counts["%s list member stores" % rule] = n
 
 
